@@ -34,6 +34,7 @@ import (
 	dbm "github.com/cosmos/cosmos-db"
 	"github.com/cosmos/cosmos-sdk/baseapp"
 	"github.com/cosmos/cosmos-sdk/client/flags"
+	"github.com/cosmos/cosmos-sdk/codec"
 	cryptotypes "github.com/cosmos/cosmos-sdk/crypto/types"
 	"github.com/cosmos/cosmos-sdk/crypto/keys/secp256k1"
 	"github.com/cosmos/cosmos-sdk/server"
@@ -224,7 +225,117 @@ func runABCI(h History, onDisk bool, start time.Time, genesis []byte) (*replicaO
 	}
 	out.Blocks = append(out.Blocks, ex)
 	out.Labels = append(out.Labels, exl)
+	io, il := importObservations(an, out, genesis, ex)
+	out.Blocks = append(out.Blocks, io)
+	out.Labels = append(out.Labels, il)
 	return out, genesis
+}
+
+// importObservations: the whole application state is exported the way `simd export` does it
+// (ExportAppStateAndValidators) and imported into a FRESH in-memory app (InitChain, one empty block,
+// Commit).  Observed: the exported bytes, the import outcome, the app hash and the irismod store
+// digests of the imported node.  Replica A imports A's export, replica B imports B's: InitGenesis /
+// ValidateGenesis of every module (the sanctioned map ranges of the service and random genesis code
+// among them) must produce the same stores from the same bytes.
+func importObservations(an *abciNode, out *replicaOut, genesis []byte, exported []string) (obs, lab []string) {
+	add := func(l, v string) { obs, lab = append(obs, v), append(lab, l) }
+	exp, err := an.e.App.ExportAppStateAndValidators(false, nil, nil)
+	if err != nil {
+		add("export of the application state", "appexport:error:"+err.Error())
+		lib.Stat(out.Stats, "import:export-error")
+		return
+	}
+	d := sha256.Sum256(exp.AppState)
+	add("exported application state", "appexport:"+hex.EncodeToString(d[:12]))
+	n2 := newABCINode(false, an.e.Time)
+	defer n2.cleanup()
+	outcome := func() (res string) {
+		defer func() {
+			if r := recover(); r != nil {
+				res = "panic"
+				if debugErrors {
+					res += ": " + fmt.Sprint(r)
+				}
+			}
+		}()
+		cp := exp.ConsensusParams
+		if _, err := n2.e.App.InitChain(&abci.RequestInitChain{ChainId: abciChainID, Time: an.e.Time, InitialHeight: exp.Height,
+			Validators: []abci.ValidatorUpdate{}, ConsensusParams: &cp, AppStateBytes: exp.AppState}); err != nil {
+			if debugErrors {
+				return "error: " + err.Error()
+			}
+			return "error"
+		}
+		resp, err := n2.e.App.FinalizeBlock(&abci.RequestFinalizeBlock{Height: exp.Height, Time: an.e.Time.Add(5 * time.Second)})
+		if err != nil {
+			return "finalize-error"
+		}
+		if _, err := n2.e.App.Commit(); err != nil {
+			return "commit-error"
+		}
+		return "ok:" + hex.EncodeToString(resp.AppHash)
+	}()
+	add("import of the exported state into a fresh node", "import:"+outcome)
+	if len(outcome) >= 2 && outcome[:2] == "ok" {
+		lib.Stat(out.Stats, "import:ok")
+		n2.e.Height, n2.e.Time = exp.Height, an.e.Time.Add(5*time.Second)
+		n2.readCtx()
+		for _, m := range lib.IrisModules {
+			add("imported store "+m, "istore:"+m+":"+storeDigest(n2.e.Ctx, n2.e.App.GetKey(m)))
+		}
+	} else {
+		lib.Stat(out.Stats, "import:failed")
+		out.Steps = append(out.Steps, "import of the exported state failed: "+outcome)
+	}
+	// Module by module (a whole-state import stops at the first module that rejects its own export —
+	// those are export/import findings of property C12, not of this one): on a fresh node initialised
+	// with the ORIGINAL genesis, InitGenesis(exported genesis of m) on a branch of the state.
+	n3 := newABCINode(false, an.e.Time)
+	defer n3.cleanup()
+	if _, err := n3.e.App.InitChain(&abci.RequestInitChain{ChainId: abciChainID, Time: an.e.Time, InitialHeight: 1,
+		Validators: []abci.ValidatorUpdate{}, ConsensusParams: simtestutil.DefaultConsensusParams, AppStateBytes: genesis}); err != nil {
+		panic("InitChain: " + err.Error())
+	}
+	if _, err := n3.e.App.FinalizeBlock(&abci.RequestFinalizeBlock{Height: 1, Time: an.e.Time}); err != nil {
+		panic(err)
+	}
+	if _, err := n3.e.App.Commit(); err != nil {
+		panic(err)
+	}
+	n3.e.Height = 1
+	n3.readCtx()
+	for i, m := range lib.IrisModules {
+		js := exported[i][len("export:"):]
+		cctx, _ := n3.e.Ctx.CacheContext()
+		res := func() (res string) {
+			defer func() {
+				if r := recover(); r != nil {
+					res = "panic"
+					if debugErrors {
+						res += ": " + fmt.Sprint(r)
+					}
+				}
+			}()
+			mod, ok := n3.e.App.ModuleManager.Modules[m].(genesisImporter)
+			if !ok {
+				fmt.Fprintln(os.Stderr, "determinism: module "+m+" has no InitGenesis(ctx, cdc, json) []ValidatorUpdate; adapt the harness")
+				os.Exit(3)
+			}
+			mod.InitGenesis(cctx, n3.e.App.AppCodec(), json.RawMessage(js))
+			return "ok"
+		}()
+		lib.Stat(out.Stats, "import-module:"+res[:2])
+		v := "imod:" + m + ":" + res
+		if res == "ok" { // after a panic the partial writes are not an observable
+			v += ":" + storeDigest(cctx, n3.e.App.GetKey(m))
+		}
+		add("import of the exported genesis of "+m, v)
+	}
+	return
+}
+
+type genesisImporter interface {
+	InitGenesis(sdk.Context, codec.JSONCodec, json.RawMessage) []abci.ValidatorUpdate
 }
 
 // block: build and sign the pending steps against the committed state, FinalizeBlock, Commit,
